@@ -312,7 +312,10 @@ fn run_case(case: &Case, v: &mut Verdict, current: &mut String) -> Result<(), St
             }
             XOp::Image { spec, second_projection } => {
                 *current = "add_image".into();
-                let mut tr = crate::prog::Trace { late_image_calls: spec.guid.len() % 3 == 0, ..Default::default() };
+                let mut tr = crate::prog::Trace { late_image_calls: spec.guid.len() % 3 == 0, repeat_visual: spec.guid.len() % 2 == 1, ..Default::default() };
+                if tr.repeat_visual && spec.visual.is_some() {
+                    v.nt("second_visual_reference_for_one_image");
+                }
                 let mut sp = spec.clone();
                 if *second_projection {
                     // a second projection must be refused; emulate by running the image twice through the same writer below
